@@ -14,6 +14,7 @@ mod xform;
 mod run;
 mod semfam;
 mod session;
+mod tmplfam;
 
 use std::collections::HashMap;
 
@@ -68,6 +69,8 @@ fn main() {
         "gen-big" => bigfam::gen_big(&args),
         "gen-ops" => semfam::gen_ops(&args),
         "gen-rel" => relfam::gen_rel(&args),
+        "gen-loops" => semfam::gen_loops(&args),
+        "gen-templates" => tmplfam::gen_templates(&args),
         "show" => semfam::show(&args),
         other => {
             eprintln!("unknown command {other}");
